@@ -116,6 +116,14 @@ def r05_2(chk, drv, site, tag):
     d, st = reds[0]
     chk.ob('R05.2', len({x[0] for x in reds}) == 1, rel, fname, tag + ' both operands from one reduction', line=site['line'],
            expected='the solver receives the pair reduced by the same remove_null_cols call')
+    # remove_null_cols derives the retained columns from its FIRST argument: that must be the stiffness matrix
+    # (positive definite on the active amplitudes), never the geometric matrix (null on all in-plane amplitudes)
+    first = st.value.args[0] if st.value.args else None
+    r1 = drv.role_of(first, d)
+    chk.ob('R05.2', r1 is not None and r1.replace('-', '') in ('K', 'K+KG') and r1 != 'KG', rel, fname, tag + ' null-column pattern taken from the stiffness matrix',
+           line=st.lineno, expected='remove_null_cols(<stiffness>, <geometric>): the first argument decides which amplitudes are kept', got='first argument has role %s' % r1,
+           detail='' if r1 == 'K' else 'the retained amplitudes are those where the %s matrix has entries; amplitudes with stiffness but no geometric stiffness (u, v) are dropped from the eigenproblem' % r1,
+           sample='%s %s: remove_null_cols first argument role %s' % (fname, tag, r1))
     used = norm(st.targets[0].elts[-1]) if isinstance(st.targets[0], ast.Tuple) else None
     # expansion: zeros((orig_size, ncols)); eigvecs[used, :] = peigvecs[...]
     after = cfg.reachable(site['node'])
